@@ -234,6 +234,16 @@ def check_case(case, ctx, model=None):
                                                            processes=case["processes"])))
             if got != ref:
                 _v("blocked:schedule-dependent", f"blocked {got} under the schedule vs {ref} serial")
+            # each item alone, and the active ones together: the answer is about the requested reactions only
+            for rid in rids:
+                alone = sorted(fa.find_blocked_reactions(model, reaction_list=[model.reactions.get_by_id(rid)], processes=1))
+                if alone != ([rid] if rid in ref else []):
+                    _v("blocked:differs-from-single-item-call", f"{rid} asked alone gives {alone}; in the full search it is {'blocked' if rid in ref else 'not blocked'}")
+            active = [rid for rid in rids if rid not in ref]
+            if active:
+                sub = sorted(fa.find_blocked_reactions(model, reaction_list=[model.reactions.get_by_id(r) for r in active], processes=case["processes"]))
+                if sub:
+                    _v("blocked:differs-from-single-item-call", f"asking for the unblocked reactions {active} only returns {sub}")
             varied = 0 < len(got) < len(rids)
     # ---------------- deletion family ------------------------------------------------------------
     else:
